@@ -311,6 +311,8 @@ pub struct ConnCfg {
     pub use_nla: bool,
     pub restricted_admin: bool,
     pub blank_creds: bool,
+    /// order of the Connector builder calls (see `connector`)
+    pub builder_order: u8,
     pub check_certificate: bool,
     /// connect from the NT hash of the password instead of the password
     pub use_hash: bool,
@@ -318,26 +320,36 @@ pub struct ConnCfg {
 
 impl Default for ConnCfg {
     fn default() -> Self {
-        ConnCfg { client: ClientCfg::default(), use_nla: true, restricted_admin: false, blank_creds: false, check_certificate: false, use_hash: false }
+        ConnCfg { client: ClientCfg::default(), use_nla: true, restricted_admin: false, blank_creds: false, check_certificate: false, use_hash: false, builder_order: 0 }
     }
 }
 
 pub fn connector(c: &ConnCfg) -> Connector {
-    let mut k = Connector::new()
-        .screen(c.client.width, c.client.height)
-        .layout(layout_of(c.client.layout))
-        .name(c.client.name.clone())
-        .auto_logon(c.client.auto_logon)
-        .use_nla(c.use_nla)
-        .set_restricted_admin_mode(c.restricted_admin)
-        .blank_creds(c.blank_creds)
-        .check_certificate(c.check_certificate);
-    if c.use_hash {
-        k = k.credentials(c.client.domain.clone(), c.client.user.clone(), String::new()).set_password_hash(vref::ntlm::nt_hash(&c.client.password).to_vec());
-    } else {
-        k = k.credentials(c.client.domain.clone(), c.client.user.clone(), c.client.password.clone());
+    let creds = |k: Connector| {
+        if c.use_hash {
+            k.credentials(c.client.domain.clone(), c.client.user.clone(), String::new()).set_password_hash(vref::ntlm::nt_hash(&c.client.password).to_vec())
+        } else {
+            k.credentials(c.client.domain.clone(), c.client.user.clone(), c.client.password.clone())
+        }
+    };
+    let flags = |k: Connector| {
+        k.auto_logon(c.client.auto_logon).use_nla(c.use_nla).set_restricted_admin_mode(c.restricted_admin).blank_creds(c.blank_creds).check_certificate(c.check_certificate)
+    };
+    let base = Connector::new().screen(c.client.width, c.client.height).layout(layout_of(c.client.layout)).name(c.client.name.clone());
+    // the order of the builder calls is part of the configuration history: the result must not depend on it
+    match c.builder_order {
+        // flags, then credentials
+        0 => creds(flags(base)),
+        // credentials, then flags (the order of the GUI client)
+        1 => flags(creds(base)),
+        // a connector configured for something else first (other account, every flag inverted), then re-configured
+        2 => {
+            let other = base.credentials("other".into(), "someone".into(), "else".into()).auto_logon(!c.client.auto_logon).use_nla(!c.use_nla).set_restricted_admin_mode(!c.restricted_admin).blank_creds(!c.blank_creds).check_certificate(!c.check_certificate);
+            flags(creds(other))
+        }
+        // flags, credentials, flags again
+        _ => flags(creds(flags(base))),
     }
-    k
 }
 
 pub struct TlsConn {
